@@ -65,6 +65,9 @@ def gen_unicode(rng):
     return "".join(rng.choice(CLASSES[rng.choice(cls)]) for _ in range(n))
 
 def gen_number(rng):
+    if rng.random() < 0.05:
+        from core import boundary
+        return boundary.literal(rng)
     nd = rng.choice([1, 1, 2, 3, 6, rng.randint(1, 40)])
     t = "".join(rng.choice("0123456789") for _ in range(nd))
     r = rng.random()
